@@ -4,6 +4,7 @@ import AdfObdd.SearchModel
 import AdfObdd.IsoCheck
 import AdfObdd.Rebuild
 import AdfObdd.AdfPipeline
+import AdfObdd.CliModel
 /-! protocol handler of the ADF family: native-store pipelines are run on the proved store model
     (`=` answers, handle for handle); every answer is also rendered canonically and compared with
     the brute-force specification `Spec` (`~` answers). -/
@@ -130,8 +131,53 @@ def orderCheck (n : Nat) (sort : String) (perm : List Nat) (labels : List String
   else if sort == "lx" && !((order.zip order.tail).all (fun (x, y) => labels.getD x "" < labels.getD y "")) then "violated bytewise-order"
   else "ok"
 
+def parseFlags (w : String) : Cli.Flags :=
+  let fs := if w == "-" then [] else w.splitOn "+"
+  { grd := fs.contains "grd", com := fs.contains "com", twoval := fs.contains "twoval", stm := fs.contains "stm",
+    stmca := fs.contains "stmca", stmcb := fs.contains "stmcb", stmpre := fs.contains "stmpre",
+    stmrew := fs.contains "stmrew", stmrew2 := fs.contains "stmrew2", stmng := fs.contains "stmng" }
+
+def parseMode (w : String) : Cli.Mode :=
+  if w == "hybrid" then .hybrid else if w == "biodivine" then .biodivine else .naive
+
+/-- `clirun`: expected stdout of the binary, every line rendered in ORIGINAL statement order -/
+def cliRun (a : AdfSt) (mode flags heu : String) (perm order : List Nat) : String × String :=
+  let n := a.n
+  let inv := fun (i : Nat) => order.idxOf i
+  let s0 := buildVars n Store.init
+  let r := perm.foldl (fun (acc : Store × List Nat) k =>
+      if k < n then acc else
+      let j := k - n
+      let c := compile acc.1 (renameFm inv (a.fms.getD j Fm.bot))
+      (c.1, acc.2.set (inv j) c.2)) (s0, List.replicate n 0)
+  let h := match parseHeu heu with | some (some h) => h | _ => SM.Heu.simple
+  let m := parseMode mode
+  let f := parseFlags flags
+  let secs := Cli.run m f h r.1 n r.2
+  -- back to the original statement order
+  let back := fun (v : List Nat) =>
+    String.ofList ((List.range n).map (fun i => let t := v.getD (inv i) 2; if t == 1 then 'T' else if t == 0 then 'F' else 'u'))
+  let lines := secs.flatMap (fun (_, vs) => vs.map back)
+  -- with a rewriting flag the harness compares the whole output as a multiset
+  let unordered := f.stmrew || f.stmrew2
+  let seq := if unordered then Spec.sortStrings lines else lines
+  let j := fun (xs : List String) => if xs.isEmpty then "-" else joinWith "," xs
+  let tts := a.tts
+  let specLines := (Cli.sections m f).flatMap (fun sec => (Cli.specSection n tts sec).map Spec.showI3)
+  (s!"exit=0 wellformed=1 lines={j seq}", s!"exit=0 set={j (Spec.sortStrings specLines)}")
+
 def adfStep (a : AdfSt) (l : String) (ws : List String) : Option (List String × AdfSt) :=
   match ws with
+  | ["cli", _, _, _, _, _, _, _] => some ([l, "= ran"], a)
+  | ["clirun", mode, _, flags, heu, perm, order, _] =>
+    match parseNatList perm ",", parseNatList order "," with
+    | some perm, some order =>
+      let r := cliRun a mode flags heu perm order
+      some ([l, s!"= {r.1}", s!"~ {r.2}"], a)
+    | _, _ => some ([l, "= bad-request"], a)
+  | ["clibad", _, _, _] => some ([l, "~ rejected"], a)
+  | ["cliexport", _] => some ([l, "~ export ok"], a)
+  | ["cliq", _] => some ([l, "~ exit=0 T(a&b)_T(c)"], a)
   | ["present", _, _, _, _] => some ([l, "= ok"], a)
   | ["presented", perm, order] =>
     match parseNatList perm ",", parseNatList order "," with
